@@ -19,8 +19,20 @@ pub enum Method {
     Copy,
     Borrow,
     EncodeRead,
+    /// encode_read asking for 64 KiB with one attempt from a reader that first answers EINTR (the
+    /// call fails and is retried) and then delivers only the scheduled few bytes: read errors and
+    /// short reads interleaved, the way a slow pipe behaves
+    EncodeReadFaulty,
 }
 pub const METHODS: [Method; 3] = [Method::Copy, Method::Borrow, Method::EncodeRead];
+pub const ALL_METHODS: [Method; 4] = [Method::Copy, Method::Borrow, Method::EncodeRead, Method::EncodeReadFaulty];
+
+struct EintrReader;
+impl Read for EintrReader {
+    fn read(&mut self, _dst: &mut [u8]) -> std::io::Result<usize> {
+        Err(std::io::Error::new(std::io::ErrorKind::Interrupted, "eintr"))
+    }
+}
 
 #[derive(Clone, Copy, Debug, PartialEq, Eq)]
 pub enum Shape {
@@ -99,7 +111,7 @@ impl Config {
         };
         Some(Config {
             schedule: get("schedule")?.trim_matches(|c| c == '[' || c == ']').split(',').filter_map(|x| x.trim().parse().ok()).collect(),
-            method: METHODS.iter().copied().find(|m| format!("{:?}", m) == get("method").unwrap_or(""))?,
+            method: ALL_METHODS.iter().copied().find(|m| format!("{:?}", m) == get("method").unwrap_or(""))?,
             shape: SHAPES.iter().copied().find(|m| format!("{:?}", m) == get("shape").unwrap_or(""))?,
             drain: DRAINS.iter().copied().find(|m| format!("{:?}", m) == get("drain").unwrap_or(""))?,
             chained: get("chained")? == "true",
@@ -206,6 +218,17 @@ fn run_config_inner(cfg: &Config) -> Result<RunStats, String> {
             Method::Borrow => enc.encode(data),
             Method::EncodeRead => {
                 let n = enc.encode_read(FullReader(data), len, NonZeroUsize::MAX).map_err(|e| format!("encode_read failed: {}", e))?;
+                if n != len {
+                    return Err(format!("encode_read returned {} of {}", n, len));
+                }
+            }
+            Method::EncodeReadFaulty => {
+                let ask = 65_536usize.max(len);
+                match enc.encode_read(EintrReader, ask, NonZeroUsize::new(1).unwrap()) {
+                    Err(e) if e.kind() == std::io::ErrorKind::Interrupted => {}
+                    other => return Err(format!("encode_read with an interrupted reader and one attempt returned {:?}", other.map_err(|e| e.kind()))),
+                }
+                let n = enc.encode_read(FullReader(data), ask, NonZeroUsize::new(1).unwrap()).map_err(|e| format!("encode_read failed: {}", e))?;
                 if n != len {
                     return Err(format!("encode_read returned {} of {}", n, len));
                 }
@@ -328,16 +351,12 @@ pub fn run(ctx: &Ctx, rep: &mut Report, unit: &mut usize) {
     let max_calls = ctx.tier.pick(100_000usize, 2_000_000);
     let scheds = schedules(max_len);
     let mut configs = 0u64;
+    let mut grid: Vec<Config> = Vec::new();
     for sched in &scheds {
         for method in METHODS {
             for shape in SHAPES {
                 for drain in DRAINS {
                     for chained in [false, true] {
-                        let u = *unit;
-                        *unit += 1;
-                        if !ctx.owns(u) {
-                            continue;
-                        }
                         // very long unrollings for the largest calls only in the thorough tier
                         let big = sched.iter().any(|z| *z > 60_000);
                         let cfg = Config { schedule: sched.clone(), method, shape, drain, chained, total: if big && ctx.tier == Tier::Thorough { 256 << 20 } else { total }, max_calls };
@@ -345,6 +364,33 @@ pub fn run(ctx: &Ctx, rep: &mut Report, unit: &mut usize) {
                             // keep the 256 MiB runs to a third of the grid
                             continue;
                         }
+                        grid.push(cfg);
+                    }
+                }
+            }
+        }
+    }
+    // read faults: EINTR failures interleaved with short reads
+    for sched in [vec![16usize], vec![100], vec![1000, 16], vec![5000]] {
+        for shape in SHAPES {
+            for drain in DRAINS {
+                for chained in [false, true] {
+                    grid.push(Config { schedule: sched.clone(), method: Method::EncodeReadFaulty, shape, drain, chained, total, max_calls: max_calls / 4 });
+                }
+            }
+        }
+    }
+    {
+        {
+            {
+                {
+                    for cfg in grid {
+                        let u = *unit;
+                        *unit += 1;
+                        if !ctx.owns(u) {
+                            continue;
+                        }
+                        let (sched, method, shape, drain, chained) = (&cfg.schedule, cfg.method, cfg.shape, cfg.drain, cfg.chained);
                         configs += 1;
                         rep.evaluations += 1;
                         match run_config(&cfg) {
@@ -386,7 +432,7 @@ pub fn run(ctx: &Ctx, rep: &mut Report, unit: &mut usize) {
     }
     rep.count("streaming_configs", configs);
     rep.note(format!(
-        "streaming: every call-size schedule of length <= {} over {:?} x {{copy, borrow, encode_read}} x 4 payload shapes x 3 drain APIs x {{encoder, encoder->decoder chained}}, each repeated cyclically until {} MiB (or {} calls) were streamed with a full drain after every call; bounds: live arena bytes <= 6 (chained: 8) x max(1 MiB, largest call) after every call, peak live chunks in the last third <= first third + 2, <= 16 chunks ever; encoder lag <= largest arena chunk + 64008 + 2, decoder lag = 0, no FE FD across drains, decoded stream == input stream, no leak after drop",
+        "streaming: every call-size schedule of length <= {} over {:?} x {{copy, borrow, encode_read}} x 4 payload shapes x 3 drain APIs x {{encoder, encoder->decoder chained}}, plus 4 small-call schedules through encode_read(64 KiB, 1 attempt) from a reader that fails with EINTR before every short delivery, each repeated cyclically until {} MiB (or {} calls) were streamed with a full drain after every call; bounds: live arena bytes <= 6 (chained: 8) x max(1 MiB, largest call) after every call, peak live chunks in the last third <= first third + 2, <= 16 chunks ever; encoder lag <= largest arena chunk + 64008 + 2, decoder lag = 0, no FE FD across drains, decoded stream == input stream, no leak after drop",
         max_len,
         SIZES,
         total >> 20,
